@@ -68,6 +68,10 @@ def cell(rng, col, pk):
     if c.get('field_processor') == 'PDS':
         return iu.pds_sub(rng.randrange(10000), ''.join(rng.choice(SAFE) for _ in range(rng.choice([0, 3, 12]))))
     s = ''.join(rng.choice(SAFE) for _ in range(n))
+    if n >= 2 and rng.random() < 0.15:
+        # letters outside ASCII that both codec families have (the csv files are then not pure ASCII)
+        k = rng.randrange(n)
+        s = s[:k] + rng.choice('\u00e9\u00fc\u00a3\u00a7\u00c5') + s[k + 1:]
     if n >= 3 and rng.random() < 0.3:
         s = ' ' + s[1:-1] + ' '
     if n >= 3 and rng.random() < 0.08:
@@ -189,11 +193,15 @@ def impl(case):
                     with open(base + '.json', 'w') as f:
                         json.dump(c, f)
                     cfg_args = ['--config-file', base + '.json']
-            with open(base + '.csv', 'w', encoding='utf8', newline='') as f:
+            # (every other command line case leaves the csv encodings to the tools' defaults: the files are then written and
+            # read here with the platform default too - the two tools must agree with it and with each other)
+            defenc = len(text) % 2 == 1
+            csv_enc = None if defenc else 'utf8'
+            with open(base + '.csv', 'w', encoding=csv_enc, newline='') as f:
                 f.write(text)
             with contextlib.redirect_stdout(io.StringIO()):
                 a = cfg_args + ['--out-encoding', case['codec']] + (['--no1014blocking'] if nb else [])
-                mci_csv_to_ipm.cli_run(**vars(mci_csv_to_ipm.cli_parser().parse_args([base + '.csv', '-o', base + '.ipm', '--in-encoding', 'utf8'] + a)))
+                mci_csv_to_ipm.cli_run(**vars(mci_csv_to_ipm.cli_parser().parse_args([base + '.csv', '-o', base + '.ipm'] + ([] if defenc else ['--in-encoding', 'utf8']) + a)))
                 if case['via'] == 'cli-mideu':
                     # the other extraction command: mideu extract (source format by name, its own blocking switch)
                     from cardutil.cli import mideu
@@ -201,10 +209,10 @@ def impl(case):
                                     + (['--no1014blocking'] if nb else []))
                 else:
                     a = cfg_args + ['--in-encoding', case['codec']] + (['--no1014blocking'] if nb else [])
-                    mci_ipm_to_csv.cli_run(**vars(mci_ipm_to_csv.cli_parser().parse_args([base + '.ipm', '-o', base + '.out.csv', '--out-encoding', 'utf8'] + a)))
+                    mci_ipm_to_csv.cli_run(**vars(mci_ipm_to_csv.cli_parser().parse_args([base + '.ipm', '-o', base + '.out.csv'] + ([] if defenc else ['--out-encoding', 'utf8']) + a)))
             with open(base + '.ipm', 'rb') as f:
                 ipm = f.read()
-            with open(base + '.out.csv', 'r', encoding='utf8', newline='') as f:
+            with open(base + '.out.csv', 'r', encoding='utf8' if case['via'] == 'cli-mideu' else csv_enc, newline='') as f:
                 return ipm, f.read()
         finally:
             for ext in ('.csv', '.ipm', '.out.csv', '.json'):
